@@ -64,8 +64,8 @@ type c19Scenario struct {
 
 func buildPipelineCase(sc c19Scenario, exit int, timedOut bool, stderr string, evs []hookEvent) map[string]any {
 	cs := map[string]any{"id": sc.ID, "exit": exit, "timedOut": timedOut,
-		"race":   strings.Contains(stderr, "WARNING: DATA RACE"),
-		"ctxErr": strings.Contains(stderr, "context canceled"),
+		"race":       strings.Contains(stderr, "WARNING: DATA RACE"),
+		"ctxErr":     strings.Contains(stderr, "context canceled"),
 		"expectFail": sc.ExpectFail, "trxExpected": sc.TrxExpected, "files": sc.Files,
 		"variant": sc.Variant, "argv": strings.Join(sc.Cmd, " "), "seed": sc.Seed, "procs": sc.Procs}
 	if strings.Contains(stderr, "panic:") || strings.Contains(stderr, "fatal error:") {
